@@ -369,6 +369,7 @@ class Sim(object):
         res.calls += 1
         tasks = c.get_next_tasks()
         offers = [summarize_offer(t) for t in tasks]
+        res.extra["status_at_answer"] = c.get_workflow_status()  # before any offer is acknowledged
         if check_pure:
             # C19(c): a second query without an intervening event.
             s1 = c.serialize()
